@@ -67,6 +67,7 @@ type layoutCase struct {
 	msgType int // -1: none
 	mtTag   string
 	mtInner bool // the MsgType field lives in the embedded struct (as in EventV6_62)
+	innerAt int  // position of the embedded struct among the outer fields
 	som     int // -1: none
 	somTag  string
 }
@@ -158,7 +159,9 @@ func (lc layoutCase) build() (reflect.Type, error) {
 		}
 		if len(inner) > 0 {
 			it := reflect.StructOf(inner)
-			outer = append(outer, reflect.StructField{Name: "Inner", Type: it, Anonymous: true})
+			at := lc.innerAt % (len(outer) + 1)
+			emb := reflect.StructField{Name: "Inner", Type: it, Anonymous: true}
+			outer = append(outer[:at], append([]reflect.StructField{emb}, outer[at:]...)...)
 		}
 		typ = reflect.StructOf(outer)
 	}()
@@ -621,6 +624,7 @@ func c18(c *Ctx) {
 			lc.somTag = tagNumber(r, lc.som, false)
 		}
 		embed := r.Chance(0.3)
+		lc.innerAt = r.Pick(16)
 		if embed && lc.msgType >= 0 && r.Chance(0.4) {
 			lc.mtInner = true
 		}
